@@ -201,17 +201,13 @@ c01_cases = [
     case("n0=255 1 round pool 2 F=0 C=1", "VerifC01", [255, 1, 2, 0, 1, 1], ["final", "audited"], Q),
     case("n0=255 3 rounds pool 1 no faults (reaching and leaving the tile boundary in one instance)", "VerifC01", [255, 3, 1, 0, 0, 1], ["final", "audited"], Q),
     case("n0=1 2 rounds pool 1 F=1 C=0 arbitrary clock", "VerifC01", [1, 2, 1, 1, 0, 0], ["final", "audited", "fatal"], T),
-    case("n0=0 2 rounds pool 2 F=1 C=1", "VerifC01", [0, 2, 2, 1, 1, 1], ["final", "audited"], T),
     case("n0=255 1 round pool 2 F=1 arbitrary clock", "VerifC01", [255, 1, 2, 1, 0, 0], ["final", "audited"], T),
-    case("n0=254 2 rounds pool 3 F=1 C=1", "VerifC01", [254, 2, 3, 1, 1, 1], ["final", "audited"], T),
-    case("n0=256 2 rounds pool 2 F=2 C=0", "VerifC01", [256, 2, 2, 2, 0, 1], ["final", "audited"], T),
-    case("n0=2 3 rounds pool 1 F=1 C=1 arbitrary clock", "VerifC01", [2, 3, 1, 1, 1, 0], ["final", "audited"], T),
 ]
 CHECKS["C01"] = {
     "level": "model_checking",
     "jobs": [dict(CTLOG, harness=WORLD + ["internal_ctlog/zz_verif_c01.go"], native=False, cases=c01_cases)],
     "bounds": {"quick": "pre-states of 0, 1 and 255 leaves; 1-2 rounds of 0-2 symbolic submissions; one fault (any storage/lock operation, applied or not) or one crash (before any operation); every clock reading symbolic",
-               "thorough": "pre-states 0, 2, 254, 256; up to 3 rounds, pool up to 3, up to 2 faults and 2 crashes combined"},
+               "thorough": "additionally: two rounds with one fault under an arbitrary clock from 1 leaf; one round of up to 2 entries with one fault under an arbitrary clock from 255 leaves (deeper combinations - 3 rounds, 2 faults, fault+crash from 254/256 leaves - did not finish within the 15 minutes available for validating them and are NOT registered)"},
     "assumptions": [IDEAL_HASH, "ideal deterministic ECDSA / ML-DSA signatures (opaque keys)", "lock store = a correct compare-and-swap register (the real ones are C05)",
                     "tar, gzip, JSON, SQLite cache, X.509 parsing modelled by the contracts of DESIGN.md §3.4", "crash = fail-stop disconnection at an operation boundary"],
 }
@@ -266,10 +262,7 @@ c02_cases = [
     case("n0=0 one fault, polls after the round", "VerifC02", [0, 1, 0, 0, 0], ["done", "fatal"], Q),
     case("n0=0 one fault, resubmission of equal entries after the round", "VerifC02", [0, 1, 0, 0, 1], ["done", "fatal"], Q),
     case("n0=255 one fault, polls after the round", "VerifC02", [255, 1, 0, 0, 0], ["done"], Q),
-    case("n0=0 one fault, one interleaved action", "VerifC02", [0, 1, 1, 0, 0], ["done", "fatal"], T),
-    case("n0=0 one fault, one interleaved action, duplicates", "VerifC02", [0, 1, 1, 0, 1], ["done", "fatal"], T),
     case("n0=1 two interleaved actions", "VerifC02", [1, 0, 2, 0, 1], ["done", "duplicate"], T),
-    case("n0=255 two faults, one action", "VerifC02", [255, 2, 1, 0, 0], ["done"], T),
 ]
 c07_cases = [
     case("n0=0 duplicates at every yield point", "VerifC02", [0, 0, 1, 0, 1], ["done", "duplicate"], Q),
@@ -279,21 +272,19 @@ c07_cases = [
     case("n0=255 a whole round interleaved into a submission with a new issuer", "VerifC07SubmitDuringRound", [255], ["done", "interleaved"], T),
     case("acknowledged indexes under eviction, pool size 1", "VerifC17Pool", [1, 3], ["sequenced", "eviction"], Q),
     case("acknowledged indexes under eviction, pool size 2", "VerifC17Pool", [2, 4], ["sequenced", "eviction"], Q),
-    case("n0=255 two actions with cache loss", "VerifC02", [255, 0, 2, 1, 1], ["done"], T),
-    case("n0=2 one fault one action with cache loss", "VerifC02", [2, 1, 1, 1, 1], ["done"], T),
 ]
 CHECKS["C02"] = {
     "level": "model_checking",
     "jobs": [dict(CTLOG, harness=WORLD + ["internal_ctlog/zz_verif_c01.go", "internal_ctlog/zz_verif_c03.go", "internal_ctlog/zz_verif_c02.go"], native=False, cases=c02_cases)],
     "bounds": {"quick": "pre-states 0 and 255; one submission before the round, one interleaved poll-or-submission at any storage/lock/cache/pause yield point of the round, one late submission (all with symbolic bytes, so duplicates are decided by the solver), one fault; second round, restart, third round",
-               "thorough": "two interleaved actions, two faults"},
+               "thorough": "additionally two interleaved actions from 1 leaf (fault + action combinations did not finish within the validation budget and are NOT registered)"},
     "assumptions": WORLD_ASSUME + ["submitters run as atomic sections at yield points (addLeafToPool holds poolMu for its whole critical section)", "SCT assembly over HTTP is checked in C09's harness"],
 }
 CHECKS["C07"] = {
     "level": "model_checking",
     "jobs": [dict(CTLOG, harness=WORLD + ["internal_ctlog/zz_verif_c01.go", "internal_ctlog/zz_verif_c03.go", "internal_ctlog/zz_verif_c02.go", "internal_ctlog/zz_verif_c17.go"], native=False, cases=c07_cases)],
     "bounds": {"quick": "up to 5 submissions of 2 symbolic bytes (every duplicate pattern), placed before the round, at any yield point, between rounds and after a restart; cache rollback to any earlier state; one fault; a whole sequencing round interleaved at any storage operation of a submission that uploads a new issuer",
-               "thorough": "two interleaved actions, two faults, pre-state 255"},
+               "thorough": "additionally a whole round interleaved into a submission from 255 leaves (two actions with cache loss from 255 leaves did not finish within the validation budget and are NOT registered)"},
     "assumptions": WORLD_ASSUME + ["submitters run as atomic sections at yield points", "legacy 128-bit cache table and the recompute-cache tool are covered by the cache-key kernel check"],
 }
 
